@@ -388,7 +388,12 @@ void add_message (object_t * who, char *data) {
 
   /* snoop handling. */
   if (ip->snoop_by)
-    receive_snoop (data, ip->snoop_by->ob);
+    {
+      receive_snoop (data, ip->snoop_by->ob);
+      /* receive_snoop() is LPC: the snooper may have removed the user it watches */
+      if (!is_interactive_user (ip))
+        return;
+    }
 
 #ifdef FLUSH_OUTPUT_IMMEDIATELY
   flush_message (ip);
@@ -489,7 +494,14 @@ void add_vmessage (object_t * who, char *format, ...) {
 
   /* snoop handling. */
   if (ip->snoop_by)
-    receive_snoop (str, ip->snoop_by->ob);
+    {
+      receive_snoop (str, ip->snoop_by->ob);
+      if (!is_interactive_user (ip)) /* the snooper removed this user */
+        {
+          free (str);
+          return;
+        }
+    }
 
   free (str);
 
@@ -611,6 +623,10 @@ static char telnet_ga[] = { INT_CHAR(IAC), INT_CHAR(GA), 0 };
  */
 #define COPY_CHARS_GONE ((size_t) -1)	/* a negotiation callback removed the interactive: ip is freed */
 
+/* add_message() hands the text to a snooper's receive_snoop() as well, which is LPC and may
+ * remove this very user: copy_chars() must not go on with a freed interactive. */
+#define COPY_CHARS_ADD_MESSAGE(text) do { add_message (ip->ob, (text)); if (!is_interactive_user (ip)) return COPY_CHARS_GONE; } while (0)
+
 static size_t copy_chars (UCHAR* from, UCHAR* to, size_t count, interactive_t* ip) {
 
   size_t i;
@@ -644,7 +660,7 @@ static size_t copy_chars (UCHAR* from, UCHAR* to, size_t count, interactive_t* i
                   *to++ = '\b';
                   *to++ = '\0';
                   opt_trace (TT_COMM|2, "TELNET new line sequence received.\n");
-                  add_message (ip->ob, "\r\n");
+                  COPY_CHARS_ADD_MESSAGE ("\r\n");
                 }
               ip->state &= ~TS_CR_SEEN; /* lone CR is dropped */
               break;
@@ -718,7 +734,7 @@ static size_t copy_chars (UCHAR* from, UCHAR* to, size_t count, interactive_t* i
                              * LM_MODE (which violates RFC-1091), we just ignore
                              * them. --- Annihilator@ES2 [2002-05-07] */
                             /* set our preferred mode */
-                            add_message (ip->ob, telnet_sb_lm_mode);
+                            COPY_CHARS_ADD_MESSAGE (telnet_sb_lm_mode);
                             break;
                           }
                         break;
@@ -729,7 +745,7 @@ static size_t copy_chars (UCHAR* from, UCHAR* to, size_t count, interactive_t* i
 
                           /* We does very little on SLC for now, just ack
                            * anything client tells us. --- Annihilator@ES2 [2002-05-07] */
-                          add_message (ip->ob, telnet_sb_lm_slc);
+                          COPY_CHARS_ADD_MESSAGE (telnet_sb_lm_slc);
                           for (j = 2; j < ip->sb_pos - 3; j += 3)
                             {
                               if (ip->sb_buf[j] == 0
@@ -776,9 +792,9 @@ static size_t copy_chars (UCHAR* from, UCHAR* to, size_t count, interactive_t* i
                                       continue;
                                     }
                                 }
-                              add_message (ip->ob, slc);
+                              COPY_CHARS_ADD_MESSAGE (slc);
                             }
-                          add_message (ip->ob, telnet_se);
+                          COPY_CHARS_ADD_MESSAGE (telnet_se);
                           break;
                         }
                       }
@@ -824,12 +840,12 @@ static size_t copy_chars (UCHAR* from, UCHAR* to, size_t count, interactive_t* i
               ip->state = TS_WONT;
               break;
             case BREAK:	/* Send back a break character. */
-              add_message (ip->ob, telnet_break_response);
+              COPY_CHARS_ADD_MESSAGE (telnet_break_response);
               flush_message (ip);
               ip->state = TS_DATA;
               break;
             case IP:		/* Send back an interupt process character. */
-              add_message (ip->ob, telnet_interrupt_response);
+              COPY_CHARS_ADD_MESSAGE (telnet_interrupt_response);
               ip->state = TS_DATA;
               break;
             case AYT:		/* Are you there signal.  Yep we are. */
@@ -838,7 +854,7 @@ static size_t copy_chars (UCHAR* from, UCHAR* to, size_t count, interactive_t* i
               break;
             case AO:		/* Abort output. Do a telnet sync operation. */
               ip->out_of_band = MSG_OOB;
-              add_message (ip->ob, telnet_abort_response);
+              COPY_CHARS_ADD_MESSAGE (telnet_abort_response);
               flush_message (ip);
               ip->state = TS_DATA;
               break;
@@ -856,11 +872,11 @@ static size_t copy_chars (UCHAR* from, UCHAR* to, size_t count, interactive_t* i
           switch (from[i])
             {
             case TELOPT_SGA:
-              add_message (ip->ob, telnet_will_sga);
+              COPY_CHARS_ADD_MESSAGE (telnet_will_sga);
               flush_message (ip);
               break;
             case TELOPT_TM:
-              add_message (ip->ob, telnet_do_tm_response);
+              COPY_CHARS_ADD_MESSAGE (telnet_do_tm_response);
               flush_message (ip);
               break;
             }
@@ -882,7 +898,7 @@ static size_t copy_chars (UCHAR* from, UCHAR* to, size_t count, interactive_t* i
           switch (from[i])
             {
             case TELOPT_TTYPE:
-              add_message (ip->ob, telnet_term_query);
+              COPY_CHARS_ADD_MESSAGE (telnet_term_query);
               flush_message (ip);
               break;
             case TELOPT_NAWS:
@@ -893,12 +909,12 @@ static size_t copy_chars (UCHAR* from, UCHAR* to, size_t count, interactive_t* i
               if (!(ip->iflags & SINGLE_CHAR))
                 {
                   telnet_sb_lm_mode[4] = MODE_EDIT | MODE_TRAPSIG;
-                  add_message (ip->ob, telnet_sb_lm_mode);
+                  COPY_CHARS_ADD_MESSAGE (telnet_sb_lm_mode);
                   flush_message (ip);
                 }
               break;
             case TELOPT_SGA:
-              add_message (ip->ob, telnet_do_sga);
+              COPY_CHARS_ADD_MESSAGE (telnet_do_sga);
               flush_message (ip);
               break;
             }
@@ -919,7 +935,7 @@ static size_t copy_chars (UCHAR* from, UCHAR* to, size_t count, interactive_t* i
           switch (from[i])
             {
             case TELOPT_SGA:
-              add_message (ip->ob, telnet_wont_sga); /* acknowledged, won't send go ahead */
+              COPY_CHARS_ADD_MESSAGE (telnet_wont_sga); /* acknowledged, won't send go ahead */
               flush_message (ip);
               break;
             }
@@ -964,6 +980,7 @@ static size_t copy_chars (UCHAR* from, UCHAR* to, size_t count, interactive_t* i
 
   return (to - start);
 }
+#undef COPY_CHARS_ADD_MESSAGE
 
 
 /**
@@ -2030,7 +2047,11 @@ static void get_user_data (interactive_t* ip, io_event_t* evt) {
            * that would be very inefficient, for little functional gain.
            */
           if (ip->snoop_by && !(ip->iflags & NOECHO))
-            receive_snoop (buf, ip->snoop_by->ob);
+            {
+              receive_snoop (buf, ip->snoop_by->ob);
+              if (!is_interactive_user (ip)) /* the snooper removed this user */
+                return;
+            }
 
           /*
            * set flag if new data completes command.
